@@ -454,7 +454,11 @@ func allDefsAre(info *types.Info, fi *FuncInfo, e ast.Expr, pred func(ast.Expr) 
 			for i, l := range v.Lhs {
 				if objOf(info, l) == obj {
 					if len(v.Lhs) != len(v.Rhs) {
-						okAll = false
+						// one of several results of a call, or the value of a comma-ok form
+						n++
+						if len(v.Rhs) != 1 || !pred(v.Rhs[0]) {
+							okAll = false
+						}
 						continue
 					}
 					n++
